@@ -147,7 +147,7 @@ func driveC18(c *driverCtx) error {
 				}
 				emitTimeParse(c, "grid-date", fmt.Sprintf("%04d-%02d-%02d", y, mo, d))
 				for _, h := range []int{0, 23} {
-					for _, k := range []int{0, 1, 3, 6, 9, 10, 12} {
+					for _, k := range []int{0, 1, 3, 6, 9, 10, 12, 40, 70} {
 						n++
 						if !c.thorough() && n%3 != 0 {
 							continue
@@ -210,10 +210,11 @@ func driveC18(c *driverCtx) error {
 	// sequences of equally long timestamps with changing zone offsets, decoded one after the other out of the same
 	// backing array (what ReadFile does from block to block): anything the parser remembers about the previous
 	// timestamp must not depend on bytes that have been overwritten since
-	seqOffs := []int{8 * 3600, -5 * 3600, 3600, 8 * 3600, -1800, 1800, 0, 5*3600 + 45*60, -(9*3600 + 30*60), 8 * 3600}
+	seqOffs := []int{8 * 3600, -5 * 3600, 3600, 8 * 3600, -1800, 1800, 0, 5*3600 + 45*60, -(9*3600 + 30*60), 8 * 3600,
+		2 * 3600, 3 * 3600, -3 * 3600, 4*3600 + 30*60, -7 * 3600, 9 * 3600, 10 * 3600, -10 * 3600, 11 * 3600, 12 * 3600, -11 * 3600, 13 * 3600, 6 * 3600, -6 * 3600, 8 * 3600, -5 * 3600}
 	for round := 0; round < c.pick(6, 60); round++ {
 		k := []int{0, 3, 9, 6, 1, 12}[round%6]
-		for i := 0; i < 24; i++ {
+		for i := 0; i < 60; i++ {
 			off := seqOffs[c.rng.Intn(len(seqOffs))]
 			if off == 0 {
 				off = 7200 // keep the length (and so the position of the zone text) constant within a round
